@@ -683,3 +683,42 @@ Proof.
   rewrite cues_close_refl. cbn [andb].
   rewrite <- run_closed_form. rewrite chain_fixpoint. apply cues_eqb_refl.
 Qed.
+
+(* ---- several languages through DFXP / SAMI ---------------------------------------------------------- *)
+Lemma run_model_set_ok : forall chain (cs : capset) (r : str * list cue -> list cue),
+  forallb carries_languages chain = true ->
+  (forall lc, In lc cs -> run_model chain (snd lc) = Ok (r lc)) ->
+  run_model_set chain cs = Ok (map (fun lc => (fst lc, r lc)) cs).
+Proof.
+  induction chain as [|f t IH]; intros cs r Hc H.
+  - cbn [run_model_set]. f_equal. rewrite <- (map_id cs) at 1. apply map_ext_in.
+    intros [l c] Hin. specialize (H _ Hin). cbn [run_model snd] in H.
+    assert (E : c = r (l, c)) by congruence. cbn [fst]. rewrite <- E. reflexivity.
+  - cbn [forallb] in Hc. apply andb_true_iff in Hc. destruct Hc as [Hf Ht].
+    cbn [run_model_set]. unfold hop_set. rewrite Hf.
+    (* every language passes the hop *)
+    assert (S : forall lc, In lc cs -> exists c', hop f (snd lc) = Ok c' /\ run_model t c' = Ok (r lc)).
+    { intros lc Hin. specialize (H _ Hin). cbn [run_model] in H.
+      destruct (hop f (snd lc)) as [c'|e]; [exists c'; split; [reflexivity|exact H]|discriminate H]. }
+    set (h := fun lc : str * list cue => match hop f (snd lc) with Ok c' => c' | Err _ => [] end).
+    assert (R : res_map (fun lc : str * list cue => do c <- hop f (snd lc); Ok (fst lc, c)) cs
+                = Ok (map (fun lc => (fst lc, h lc)) cs)).
+    { clear IH. induction cs as [|lc cs IHcs]; [reflexivity|].
+      destruct (S lc (or_introl eq_refl)) as [c' [E _]].
+      cbn [res_map map]. unfold h at 1. rewrite E. cbn [bind].
+      rewrite IHcs; [reflexivity|intros x Hx; apply H; right; exact Hx|intros x Hx; apply S; right; exact Hx]. }
+    rewrite R. cbn [bind].
+    rewrite (IH (map (fun lc => (fst lc, h lc)) cs) (fun lc' => match run_model t (snd lc') with Ok x => x | Err _ => [] end) Ht).
+    + f_equal. rewrite map_map. apply map_ext_in. intros lc Hin. cbn [fst snd].
+      destruct (S lc Hin) as [c' [E1 E2]]. unfold h. rewrite E1, E2. reflexivity.
+    + intros lc' Hin. apply in_map_iff in Hin. destruct Hin as [lc [<- Hin]]. cbn [snd].
+      destruct (S lc Hin) as [c' [E1 E2]]. unfold h. rewrite E1, E2. reflexivity.
+Qed.
+
+Theorem run_model_set_exact : forall chain cs, set_dom chain cs = true ->
+  run_model_set chain cs = Ok (expected_set chain cs).
+Proof.
+  intros chain cs H. unfold set_dom in H. apply andb_true_iff in H. destruct H as [Hc Hd].
+  unfold expected_set. apply run_model_set_ok; [exact Hc|].
+  intros lc Hin. apply run_model_exact. rewrite forallb_forall in Hd. apply Hd. exact Hin.
+Qed.
